@@ -104,6 +104,14 @@ fn find_and_play_best_move(
             thread::sleep(Duration::from_millis(1));
         }
     }
+    // answer and close the channel in one step (the search thread reports an improvement only
+    // under this lock and only while the channel is open): whatever it reported is taken into
+    // account, and nothing of this search can reach the GUI after the bestmove
+    let _stdout = io::stdout().lock();
+    while let Ok(b) = rx.try_recv() {
+        best_move = Some(b);
+    }
+    drop(rx);
     let board = best_move.unwrap();
     send_best_move_to_gui(&board);
     info!("{}", board.simple_board());
